@@ -26,7 +26,7 @@ RULE = ('cases = (aperture-dependent package in format 1 or 2 with 2..8 aperture
         'distance range, log-distance step, A_V range, 4 sources over all flags) drawn from the quantifier of C02; a '
         'case is non-trivial when the grid has >= 2 trial distances or some theta*d lies beyond the largest aperture; '
         'distinct = distinct canonical hash of the generated inputs')
-REQUIRED_BRANCHES = ['named_in_cube', 'ap_table_other_unit', 'ext_other_unit', 'theta_other_unit', 'same_theta_diff_tables',
+REQUIRED_BRANCHES = ['flux_other_unit', 'named_in_cube', 'ap_table_other_unit', 'ext_other_unit', 'theta_other_unit', 'same_theta_diff_tables',
                      'pred_fluxes', 'chi2_big_compared', 'range_other_unit', 'exact_multiple', 'format1', 'format2', 'dmin_eq_dmax', 'multi_distance', 'beyond_largest', 'inside_table',
                      'flux_monotone', 'flux_arbitrary', 'clamp_low', 'clamp_high', 'interior', 'lo_eq_hi',
                      'best_first', 'best_last', 'best_inner', 'limit_violated', 'limit_ok', 'flag4', 'flag0or9',
@@ -174,6 +174,15 @@ def gen_case(rng, directed=None):
             row = [nice(rng, 1e-2, 1e3, 4) for _ in range(nap)]
             rows.append(sorted(row) if mono else row)
         flux.append(rows)
+    # the package may store its fluxes in another unit than mJy: `flux_stored` is what is written, `flux` are the mJy
+    # floats the code derives from it (the model's input)
+    flux_unit = opts.get('flux_unit') or ('mJy' if (directed or rng.random() < 0.65) else rng.choice(['Jy', 'Jy', 'uJy']))
+    flux_stored = None
+    if flux_unit != 'mJy':
+        fac = (1. * u.mJy).to(u.Unit(flux_unit)).value
+        flux_stored = [[[float('%.4g' % (v * fac)) for v in row] for row in rows] for rows in flux]
+        flux = [[[float(x) for x in (np.array(row) * u.Unit(flux_unit)).to(u.mJy).value] for row in rows]
+                for rows in flux_stored]
     # A_V range
     ks = [-0.4 * float(np.interp(w, tw, chi, left=0., right=0.)) / float(np.interp(0.55, tw, chi)) for w in wavs]
     a_true = round(rng.uniform(0., 6.) / max(1., max(abs(k) for k in ks)), 3)
@@ -219,7 +228,7 @@ def gen_case(rng, directed=None):
     return dict(fmt=fmt, rkind=rkind, akind=akind, wavs=wavs, tab_w=tw, tab_chi=chi, thetas=thetas, aps=aps,
                 flux=flux, mono=mono, dmin=dmin, dmax=dmax, dunit=dunit, drange_in_unit=du, step=step, av=av,
                 sources=sources, thetas_given=thetas_given, theta_unit=theta_unit, named=named, ap_unit=ap_unit,
-                aps_stored=stored, ext_unit=ext_unit)
+                aps_stored=stored, ext_unit=ext_unit, flux_unit=flux_unit, flux_stored=flux_stored)
 
 
 DIRECTED = [(1, 'inside', 'interior'), (2, 'beyond', 'clamp_low'), (1, 'beyond', 'clamp_high'), (2, 'single', 'lo_eq_hi'),
@@ -231,6 +240,8 @@ DIRECTED = [(1, 'inside', 'interior'), (2, 'beyond', 'clamp_low'), (1, 'beyond',
             (1, 'inside', 'wide', None, dict(ap_unit='pc')), (2, 'beyond', 'wide', None, dict(ap_unit='cm')),
             (1, 'mixed', 'wide', None, dict(ext_unit='nm')), (2, 'inside', 'interior', None, dict(ext_unit='Angstrom')),
             (1, 'inside', 'wide', None, dict(ext_unit='cm')),
+            (1, 'beyond', 'wide', None, dict(flux_unit='Jy')), (2, 'inside', 'interior', None, dict(flux_unit='Jy')),
+            (2, 'beyond', 'wide', None, dict(flux_unit='Jy', named=True)), (1, 'mixed', 'interior', None, dict(flux_unit='uJy')),
             (1, 'beyond', 'wide', None, dict(theta_unit='arcmin')), (2, 'inside', 'wide', None, dict(theta_unit='deg'))]
 
 
@@ -259,17 +270,19 @@ def write_convolved(case, d, fn, j, names):
     import os
     from sedfitter.convolved_fluxes import ConvolvedFluxes
     nm = len(names)
+    funit = u.Unit(case.get('flux_unit', 'mJy'))
+    fl = case['flux'][j] if case.get('flux_stored') is None else case['flux_stored'][j]
     if case.get('ap_unit', 'au') == 'au':
-        pk.write_convolved(d, fn, case['wavs'][j], names, case['flux'][j], [[0.] * len(case['aps'][j])] * nm,
-                           apertures_au=case['aps'][j])
+        pk.write_convolved(d, fn, case['wavs'][j], names, fl, [[0.] * len(case['aps'][j])] * nm,
+                           apertures_au=case['aps'][j], unit=funit)
         return
     os.makedirs(os.path.join(d, 'convolved'), exist_ok=True)
     c = ConvolvedFluxes()
     c.model_names = np.array(names)
     c.apertures = np.array(case['aps_stored'][j], dtype=float) * u.Unit(case['ap_unit'])
     c.central_wavelength = case['wavs'][j] * u.micron
-    c.flux = np.array(case['flux'][j], dtype=float).reshape(nm, -1) * u.mJy
-    c.error = np.zeros((nm, len(case['aps'][j]))) * u.mJy
+    c.flux = np.array(fl, dtype=float).reshape(nm, -1) * funit
+    c.error = np.zeros((nm, len(case['aps'][j]))) * funit
     c.write(os.path.join(d, 'convolved', fn + '.fits'), overwrite=True)
 
 
@@ -304,14 +317,15 @@ def build(case, d):
         j0 = shared[0] if shared else 0
         nap = len(case['aps'][j0])
         val = np.ones((nm, nap, len(wav)))
+        funit = u.Unit(case.get('flux_unit', 'mJy'))
         for j in shared:
-            val[:, :, j] = np.array(case['flux'][j], dtype=float)
+            val[:, :, j] = np.array(case['flux'][j] if case.get('flux_stored') is None else case['flux_stored'][j], dtype=float)
         if case.get('ap_unit', 'au') == 'au':
             pk.write_cube_package(d, names, wav, val, np.zeros_like(val), apertures_au=case['aps'][j0],
-                                  aperture_dependent=True, logd_step=case['step'])
+                                  aperture_dependent=True, logd_step=case['step'], unit=funit)
         else:
             pk.write_conf(d, True, logd_step=case['step'], version=2)
-            cube = pk.make_cube(names, wav, val, np.zeros_like(val), case['aps'][j0])
+            cube = pk.make_cube(names, wav, val, np.zeros_like(val), case['aps'][j0], unit=funit)
             cube.apertures = np.array(case['aps_stored'][j0], dtype=float) * u.Unit(case['ap_unit'])
             import os
             cube.write(os.path.join(d, 'flux.fits'), overwrite=True)
@@ -367,10 +381,10 @@ def model_side(case):
 
 
 def describe(case):
-    return ('format %d (named filters %r), bands %r um, theta %r arcsec (given in %s), aperture tables in %s, extinction law in %s, '
+    return ('format %d (named filters %r), bands %r um, theta %r arcsec (given in %s), aperture tables in %s, fluxes stored in %s, extinction law in %s, '
             'distance range [%r, %r] kpc (given in %s), logd_step %r, A_V range %r'
             % (case['fmt'], case.get('named'), case['wavs'], case['thetas'], case.get('theta_unit', 'arcsec'),
-               case.get('ap_unit', 'au'), case.get('ext_unit', 'micron'), case['dmin'], case['dmax'],
+               case.get('ap_unit', 'au'), case.get('flux_unit', 'mJy'), case.get('ext_unit', 'micron'), case['dmin'], case['dmax'],
                case.get('dunit', 'kpc'), case['step'], case['av']))
 
 
@@ -428,6 +442,8 @@ def run_case(case):
             branches.add('ap_table_other_unit')
         if case.get('ext_unit', 'micron') != 'micron':
             branches.add('ext_other_unit')
+        if case.get('flux_unit', 'mJy') != 'mJy':
+            branches.add('flux_other_unit')
         if case.get('theta_unit', 'arcsec') != 'arcsec':
             branches.add('theta_other_unit')
         nbands = len(case['wavs'])
